@@ -15,12 +15,18 @@ def main(argv=None):
     ap.add_argument("--tier", default=os.environ.get("VERIF_TIER", "quick"), choices=["quick", "thorough"])
     ap.add_argument("--replay")
     ap.add_argument("--raw", action="store_true", help="replay: print RAWKEY lines only")
+    ap.add_argument("--repeat", type=int, default=1, help="replay: evaluate the case N times in this process, report the last")
     a = ap.parse_args(argv)
     prop = a.prop.upper()
     seed = env.seed()
 
     if a.replay:
-        vs, rec = core.replay_file(prop, a.replay)
+        vs, rec = core.replay_file(prop, a.replay, a.repeat)
+        if not vs and not a.raw and a.repeat == 1:
+            # a violation that needs an earlier execution in the same process (process-global state)
+            vs, rec = core.replay_file(prop, a.replay, 2)
+            if vs:
+                print("note: reproduces only from the second evaluation in one process (process-global state)")
         if a.raw:
             for v in vs:
                 print("RAWKEY", v["key"])
@@ -76,7 +82,9 @@ def main(argv=None):
             st, outs = core.confirm(prop, path, key)
         else:
             st = "confirmed"  # not re-run: too many classes; already one confirmed VIOLATION printed
-        if st == "confirmed":
+        if st in ("confirmed", "confirmed-on-second-execution"):
+            if st != "confirmed":
+                print("  note: %s reproduces only from the second evaluation of the case in one process (process-global state); replay with --repeat 2" % key)
             print("  %s :: %s  [%d cases]" % (key, v["msg"][:600], len(vs)))
             print("VIOLATION property=%s replay=%s" % (prop, path))
             rc = 1
